@@ -64,6 +64,14 @@ struct M {
       if (op == "osetpar") { o[k]->matchParametersValues(allParams(*o[k], vec(t, 2))); return showO(*o[k]); }
       if (op == "osetone") { o[k]->setParameterValue("theta" + t[2], hexToDouble(t[3])); return showO(*o[k]); }
       if (op == "oget") return showO(*o[k]);
+      if (op == "oclone") {
+        // copy through the Clonable interface, as containers of Parametrizable objects do
+        size_t j = toU(t[2]);
+        std::unique_ptr<Simplex> c(o[k]->clone());
+        OrderedSimplex* oc = dynamic_cast<OrderedSimplex*>(c.get());
+        if (!oc) return "sliced";
+        c.release(); o[j].reset(oc); return showO(*o[j]);
+      }
       if (op == "ocopy") { size_t j = toU(t[2]); std::unique_ptr<OrderedSimplex> c(new OrderedSimplex(*o[k])); o[j] = std::move(c); return showO(*o[j]); }
       return "bad-op";
     }
